@@ -21,7 +21,7 @@ use std::time::Duration;
 pub static INFO: PropInfo = PropInfo {
     id: "C19",
     level: "exploration",
-    rule: "one evaluation = one datagram handed to NetcodeServer::process_packet from an address that has no connected session at that moment (unknown or half-open), in a server that is empty, partly filled or full. Generators: valid requests (exact 1078 bytes, padded up to 1400, arbitrary unused prefix nibble, repeated, replayed from other addresses), truncated / bit-flipped / single-field-corrupted requests, requests with expired, foreign-key, foreign-protocol or wrong-host tokens (host lists one port or one address bit away from the server's own, or its IPv4-mapped form with another port), valid responses (built from the challenge the server issued), responses with corrupted or foreign challenge blobs, under a wrong key, from addresses without a half-open session, replayed after use, other sealed packet kinds, short and random strings; virtual time advances so that tokens expire. The harness minted every token and opens every challenge, so validity comes from its own ledger: valid token = the 1077 bytes after the prefix equal the request of a ledger token minted for this server (key, protocol, host list) and floor(server time) < expiry; valid response = opens as a Response under the client-to-server key of a ledger token and carries a (sequence, blob) pair this server instance issued. Oracle on the returned ServerResult: at most the one datagram of the result, addressed to the source, strictly shorter than the input, and none at all unless the input carried a valid token or a valid response. Non-trivial = the datagram came from an address without a connected session; distinct = (server fill state, generator, datagram hash). One run in 40 is a HISTORY-PRESSURE run instead: more than 2048 distinct valid tokens are presented (the server's used-token table holds 2048 and replaces an oldest entry), the clock advances, token T is answered at X, 1-3 further fresh tokens follow, then T's request is replayed from Y != X and must get no answer (entries strictly older than T's exist at every later insertion, so T's binding must still be there). One run in 30 is a LATE-RESPONSE run: a token with 2-4 s to live is presented (in half of the runs after a 600 s token from the same address, whose half-open session it takes over), the clock passes its expiry in one or many steps, and the correctly sealed response to its genuine challenge must get no answer (a response is valid only while its token is); timely responses are the control.",
+    rule: "one evaluation = one datagram handed to NetcodeServer::process_packet from an address that has no connected session at that moment (unknown or half-open), in a server that is empty, partly filled or full. Generators: valid requests (exact 1078 bytes, padded up to 1400, arbitrary unused prefix nibble, repeated, replayed from other addresses), truncated / bit-flipped / single-field-corrupted requests, requests with expired, foreign-key, foreign-protocol or wrong-host tokens (host lists one port or one address bit away from the server's own, or its IPv4-mapped form with another port), valid responses (built from the challenge the server issued), responses with corrupted or foreign challenge blobs, under a wrong key, from addresses without a half-open session, replayed after use, other sealed packet kinds, short and random strings; virtual time advances so that tokens expire. The harness minted every token and opens every challenge, so validity comes from its own ledger: valid token = the 1077 bytes after the prefix equal the request of a ledger token minted for this server (key, protocol, host list) and floor(server time) < expiry; valid response = opens as a Response under the client-to-server key of a ledger token and carries a (sequence, blob) pair this server instance issued. Oracle on the returned ServerResult: at most the one datagram of the result, addressed to the source, strictly shorter than the input, and none at all unless the input carried a valid token or a valid response. Non-trivial = the datagram came from an address without a connected session; distinct = (server fill state, generator, datagram hash). One run in 40 is a HISTORY-PRESSURE run instead: more than 2048 distinct valid tokens are presented (the server's used-token table holds 2048 and replaces an oldest entry), the clock advances, token T is answered at X, 1-3 further fresh tokens follow, then T's request is replayed from Y != X and must get no answer (entries strictly older than T's exist at every later insertion, so T's binding must still be there). One run in 30 is a LATE-RESPONSE run: a token with 2-4 s to live is presented (in half of the runs after a 600 s token from the same address, whose half-open session it takes over), the clock passes its expiry in one or many steps, and the correctly sealed response to its genuine challenge must get no answer (a response is valid only while its token is); timely responses are the control. One run in 30 is a STALE-RESPONSE run: an address completes a handshake, the session ends within the life time of the token (NetcodeServer::disconnect, the Disconnect datagram of the client, or a time-out), and the recorded genuine response datagram arrives again from that address 1-3 times: no answer, no session, nothing sent to it at the following updates (a response is consumed by the session it establishes); a duplicate while the session is up and a fresh request afterwards are the controls.",
     assumptions: &[
         "a ServerResult carries at most one datagram; further output could only come from update_client, which is polled after a sample of the inputs",
         "a panic (C07's business) ends the run without a C19 verdict for that datagram",
